@@ -218,7 +218,14 @@ impl Group for C07 {
         let up_allow = upfront != 0 && allow.contains(&upfront);
         let ctype = pick(rng, &[1, 3]);
         let setup = SetupNums { outbound, value, push: 0, holder_delay: 6, cp_delay: 7, ctype, upfront, up_spend, up_allow };
-        ops.push(setup.line());
+        // a third of the cases (without chain ops: the harness feeds blocks to the tracker directly, which the
+        // node does not persist) run on the real persister: incremental allowlist updates and restarts between
+        // the closes -- what was removed from / added to the allowlist must stay so across a restart
+        let durable = !pol.onchain && rng.chance(1, 2);
+        // otherwise sometimes the channel is set up with a permanent channel id different from its initial one (as
+        // LDK-style integrations do): it is ONE channel reachable under both ids, and the requests alternate
+        let two_ids = !durable && rng.chance(1, 3);
+        ops.push(if two_ids { format!("{} {}", setup.line(), 1 + rng.below(2)) } else { setup.line() });
         // ---- reach a state by real updates ----
         let base_w: u128 = if ctype == 3 { 1124 } else { 724 };
         let f0 = fee_for_rate(1000 + rng.below(2000) as u128, base_w, false) as u64;
@@ -256,6 +263,7 @@ impl Group for C07 {
         let htlc_h = if pending == 1 { vec![(5_000u64, 1_000u64)] } else { vec![] };
         let sub = |x: u64, l: &Vec<(u64, u64)>| x.saturating_sub(l.iter().map(|p| p.0).sum::<u64>());
         let depth = rng.below(5);
+        let mut alt_ah: Option<u64> = None;
         if depth > 0 {
             if pol.onchain {
                 ops.push("chain 1000 3 0".into());
@@ -273,6 +281,19 @@ impl Group for C07 {
                 } else {
                     Commit { n: 1, feerate: 0, to_holder: ah, to_cp: bh, offered: vec![], received: vec![] }
                 };
+                // the counterparty's commitment_signed for holder commitment 1 may be validated more than once before the
+                // revocation (re-sent after a reconnect), with another content: the LAST validated content is the one in
+                // force.  First an older version (smaller holder balance / without the HTLC), then the real one
+                if rng.chance(1, 3) {
+                    let shift = (2 * pol.eps + 2 + rng.below(5_000)).min(ah);
+                    let alt = if rng.chance(1, 2) || cm_h.received.is_empty() {
+                        Commit { n: 1, feerate: 0, to_holder: clean(ah - shift), to_cp: clean(cm_h.to_cp + shift), offered: vec![], received: cm_h.received.clone() }
+                    } else {
+                        Commit { n: 1, feerate: 0, to_holder: ah, to_cp: bh, offered: vec![], received: vec![] }
+                    };
+                    alt_ah = Some(alt.to_holder);
+                    ops.push(alt.hold_line_x(true, rng.chance(1, 3)));
+                }
                 ops.push(cm_h.hold_line_x(true, rng.chance(1, 3)));
                 if depth > 2 {
                     ops.push("revoke 1".into());
@@ -286,10 +307,6 @@ impl Group for C07 {
         let (cur_ah, cur_bh) = if depth > 2 { (ah, bh) } else { (h0, c0) };
         let (cur_ac, cur_bc) = if depth > 0 { (ac, bc) } else { (h0, c0) };
         // ---- closing requests ----
-        // a third of the cases (without chain ops: the harness feeds blocks to the tracker directly, which the
-        // node does not persist) run on the real persister: incremental allowlist updates and restarts between
-        // the closes -- what was removed from / added to the allowlist must stay so across a restart
-        let durable = !pol.onchain && rng.chance(1, 2);
         let nclose = 2 + rng.below(4);
         let mut last_removed: Option<u64> = None;
         for j in 0..nclose {
@@ -349,6 +366,8 @@ impl Group for C07 {
             let cd = { let s = pick(rng, &[20, 21, 22, 10]); Dest { sid: s, spend: false, allow: allow.contains(&s) } };
             // value of the side that does not pay the fee, at the ε edges of one of the two commitments
             let due = if outbound { if rng.chance(1, 2) { cur_bc } else { cur_bh } } else if rng.chance(1, 2) { cur_ah } else { cur_ac };
+            // ... or of the version of the holder commitment that was validated first and then superseded
+            let due = match alt_ah { Some(x) if !outbound && depth > 2 && rng.chance(1, 3) => x, _ => due };
             let fixed = match rng.below(9) {
                 0 => due.saturating_add(pol.eps),
                 1 => due.saturating_add(pol.eps + 1),
